@@ -85,7 +85,11 @@ func main() {
 	}
 	defer func() {
 		if p := recover(); p != nil {
-			fmt.Fprintf(os.Stderr, "HARNESS ERROR property=%s: %v\n%s\n", id, p, debug.Stack())
+			st := debug.Stack()
+			if hx.ReportPanic(p, st, "main") { // the code under test crashed on an explored input
+				os.Exit(r.Finish(props.Level[id]))
+			}
+			fmt.Fprintf(os.Stderr, "HARNESS ERROR property=%s: %v\n%s\n", id, p, st)
 			os.Exit(2)
 		}
 	}()
